@@ -86,7 +86,9 @@ def imaging_case(aa, rng, kshapes=(1, 3, 5), kernel_kind=None, data_kind=None, s
         if rng.random() < 0.35:
             # adaptive over sampling of the pixelization grid: one sub-size per image pixel (slim order)
             sub = rng.integers(1, sub_max + 2, size=int((~m).sum())).astype(int)
-            sub_arg = aa.Array2D(values=sub.copy(), mask=mask)
+            # ... held in the platform integer or in a compact integer type (the harness keeps its own int64 copy in case["sub"])
+            sdt = [np.int64, np.int64, np.int8, np.uint8, np.int16][int(np.sum(sub) + len(sub)) % 5]
+            sub_arg = aa.Array2D(values=sub.astype(sdt), mask=mask)
         kw["over_sampling"] = aa.OverSamplingDataset(pixelization=aa.OverSamplingUniform(sub_size=sub_arg))
     ds = aa.Imaging(data=data, noise_map=noise_map, psf=psf, use_normalized_psf=use_normalized_psf, **kw)
     k_used = k / k.sum() if use_normalized_psf else k
